@@ -965,11 +965,13 @@ func (b *broker) subGet(msg *wamp.Invocation) wamp.Message {
 // attached to the subscription.
 func (b *broker) subListSubscribers(msg *wamp.Invocation) wamp.Message {
 	var subscriberIDs []wamp.ID
+	var found bool
 	if len(msg.Arguments) != 0 {
 		if subID, ok := wamp.AsID(msg.Arguments[0]); ok {
 			sync := make(chan struct{})
 			b.actionChan <- func() {
 				if sub, ok := b.subscriptions[subID]; ok {
+					found = true
 					subscriberIDs = make([]wamp.ID, len(sub.subscribers))
 					var i int
 					for subscriber := range sub.subscribers {
@@ -982,7 +984,7 @@ func (b *broker) subListSubscribers(msg *wamp.Invocation) wamp.Message {
 			<-sync
 		}
 	}
-	if len(subscriberIDs) == 0 {
+	if !found {
 		return &wamp.Error{
 			Type:    msg.MessageType(),
 			Request: msg.Request,
@@ -1021,7 +1023,7 @@ func (b *broker) subCountSubscribers(msg *wamp.Invocation) wamp.Message {
 			Type:    msg.MessageType(),
 			Request: msg.Request,
 			Details: wamp.Dict{},
-			Error:   wamp.ErrNoSuchSession,
+			Error:   wamp.ErrNoSuchSubscription,
 		}
 	}
 	return &wamp.Yield{
